@@ -199,6 +199,7 @@ class Interp:
         self.calls_seen = []    # inlined callee defs
         self.fresh = 0
         self.active_loops = set()
+        self._cur_var = None
         self.depth = 0
 
     # -------------------------------------------------------------- helpers
@@ -1148,6 +1149,7 @@ class Interp:
             if a in subterms(d):
                 self._set(st, self.top('loop-carried value is not an accumulator: %s' % show(new), e)); continue
             # d is the per-iteration increment; sum it over the iteration
+            self._cur_var = varname
             total = self.sum_over(d, count, elem, source_segs)
             if total is None:
                 total = self.sum_over_var(d, count, varname)
@@ -1177,7 +1179,7 @@ class Interp:
     def sum_over(self, d, count, elem, source_segs):
         """sum of the per-iteration term d over the iteration"""
         if not is_term(elem) or elem not in subterms(d):
-            return mul(count, d)
+            return None if self._cur_var and _mentions(d, self._cur_var) else mul(count, d)
         dd, c = to_lin(d)
         if set(dd.keys()) == {elem} and source_segs is not None:
             return add(scale(S_of(source_segs), dd[elem]), mul(count, C(c)))
@@ -1408,24 +1410,38 @@ def stored_sum(s):
     r = S_of(base)
     hist = []
     for (i, v) in stores:
-        if isinstance(i, tuple) and i and i[0] in ('range', 'within'): return ('S', s)
+        if isinstance(i, tuple) and i and i[0] == 'within': return ('S', s)
+        if isinstance(i, tuple) and i and i[0] == 'range':
+            r = add(r, sub(S_of(v), ('S', ('slice', ('st', tuple(base), tuple(hist)), i[1], i[2]))))
+            hist.append((i, v)); continue
         old = stored_get(base, hist, i)
-        if old is None: return ('S', s)
         r = add(r, sub(v, old))
         hist.append((i, v))
     return r
 
 def stored_get(base, hist, idx):
-    for (i, v) in reversed(hist):
+    for n in range(len(hist) - 1, -1, -1):
+        (i, v) = hist[n]
+        if isinstance(i, tuple) and i and i[0] in ('range', 'within'):
+            t = ('sel', ('st', tuple(base), tuple(hist[:n + 1])), idx); sym.SEL_RANGE[t[1]] = (0, 255); return t
         c = cmp('eq', i, idx)
         if c == TRUE: return v
         if c == FALSE: continue
-        older = stored_get(base, hist[:hist.index((i, v))], idx)
-        if older is None: return None
+        older = stored_get(base, hist[:n], idx)
         return ite(c, v, older)
     if len(base) == 1:
         b = base[0]
         if b[0] == 'raw':
             sym.SEL_RANGE[b[1]] = (0, 255); return ('sel', b[1], idx)
         if b[0] == 'rep' and b[2] is None and len(b[3]) == 1 and b[3][0][0] == 'int' and b[3][0][2] == 1: return b[3][0][1]
-    return None
+    if idx[0] == 'c':
+        pos = 0
+        for sg in base:
+            l = seglen(sg)
+            if l[0] != 'c': break
+            if pos <= idx[1] < pos + l[1]:
+                if sg[0] == 'int' and sg[2] == 1: return sg[1]
+                if sg[0] == 'int': return band(shr(sg[1], C(8 * (idx[1] - pos))), C(0xff)) if sg[1][0] != 'c' else C((sg[1][1] >> (8 * (idx[1] - pos))) & 0xff)
+                break
+            pos += l[1]
+    t = ('sel', ('st', tuple(base), ()), idx); sym.SEL_RANGE[t[1]] = (0, 255); return t
